@@ -314,10 +314,10 @@ theorem stitch_decreasing (dfs : List TS) (ub : List Int) (oc : Option (List Cha
 
 /-- the first half of the inverse - cutting the stitched frame again at the bounds with `'(]'`, as `df_unslice` does,
     returns exactly the piece each interval was assembled from (rows, values, NaN padding) -/
-theorem unslice_slices (dfs : List TS) (ub : List Int) (h : Stitchable dfs ub) (n : Nat) (F : Frame)
+theorem slices_eq (dfs : List TS) (ub : List Int) (h : Stitchable dfs ub) (n : Nat) (F : Frame)
     (hF : stitch dfs Option.none (some ub) (some ['(', ']']) n = .ok (some F)) (i : Nat) (hi : i < ub.length) :
-    sliceWrap F.rows (loBound ub i) (.date ub[i]) (some ['(', ']']) =
-      .ok ((pieces dfs ub n false true)[i]'(by
+    (F.rows.filter fun r => inWindow false true (loBound ub i) (.date ub[i]) r.1) =
+      ((pieces dfs ub n false true)[i]'(by
           rw [pieces_length _ _ _ _ _ h.len (by intro h0; have := h.two; simp [h0] at this)]; exact hi)
         |>.rows.map fun r => (r.1, padRow F.width r.2)) := by
   obtain ⟨F', hF', hrows⟩ := stitch_eq dfs ub h (some ['(', ']']) n false true rfl
@@ -327,11 +327,7 @@ theorem unslice_slices (dfs : List TS) (ub : List Int) (h : Stitchable dfs ub) (
   have hfl := framesOf_length dfs n
   have hlen := h.len
   have hub := nonDecreasing_pairwise ub h.inc
-  have hsw : ∀ rows : Rows (List (Option Int)),
-      sliceWrap rows (loBound ub i) (.date ub[i]) (some ['(', ']']) = sliceOne rows (loBound ub i) (.date ub[i]) (some ['(', ']']) := by
-    intro rows; unfold sliceWrap; split <;> first | rfl | (rename_i h1 h2; cases h2)
-  rw [hsw, sliceOne_eq _ _ _ _ false true rfl, hrows]
-  congr 1
+  rw [hrows]
   have hi1 : i < (pieces dfs ub n false true).length := by omega
   rw [List.filter_flatMap]
   conv => lhs; rw [pieces_eq_range dfs ub h.len h.two n false true]
@@ -383,6 +379,103 @@ theorem unslice_slices (dfs : List TS) (ub : List Int) (h : Stitchable dfs ub) (
       rw [List.getElem?_eq_getElem (by omega)] at b
       have b' := (lbOk_iff false (.date (ub[k - 1]'(by omega))) r'.1).mp (by simpa using b)
       simp at b'; omega
+
+theorem unslice_slices (dfs : List TS) (ub : List Int) (h : Stitchable dfs ub) (n : Nat) (F : Frame)
+    (hF : stitch dfs Option.none (some ub) (some ['(', ']']) n = .ok (some F)) (i : Nat) (hi : i < ub.length) :
+    sliceWrap F.rows (loBound ub i) (.date ub[i]) (some ['(', ']']) =
+      .ok ((pieces dfs ub n false true)[i]'(by
+          rw [pieces_length _ _ _ _ _ h.len (by intro h0; have := h.two; simp [h0] at this)]; exact hi)
+        |>.rows.map fun r => (r.1, padRow F.width r.2)) := by
+  have hsw : sliceWrap F.rows (loBound ub i) (.date ub[i]) (some ['(', ']']) =
+      sliceOne F.rows (loBound ub i) (.date ub[i]) (some ['(', ']']) := by
+    unfold sliceWrap; split <;> first | rfl | (rename_i h1 h2; cases h2)
+  rw [hsw, sliceOne_eq _ _ _ _ false true rfl, slices_eq dfs ub h n F hF i hi]
+
+/-- with `n > 1` the stitched frame has `min n #series` columns -/
+theorem stitch_width (dfs : List TS) (ub : List Int) (h : Stitchable dfs ub) (oc : Option (List Char)) (n : Nat)
+    (hn : 1 < n) (l u : Bool) (hb : brackets oc = .ok (l, u)) (F : Frame)
+    (hF : stitch dfs Option.none (some ub) oc n = .ok (some F)) : F.width = min n ub.length := by
+  have hne : ub ≠ [] := by intro h0; have := h.two; simp [h0] at this
+  have hpl := pieces_length dfs ub n l u h.len hne
+  have hfl := framesOf_length dfs n
+  have hlen := h.len
+  have htwo := h.two
+  rw [stitch_ub_eq dfs ub oc n l u hb h.inc h.len hne, assemble_many _ (by rw [hpl]; exact h.two)] at hF
+  cases hF
+  show (pieces dfs ub n l u).foldl (fun m f => max m f.width) 0 = min n ub.length
+  have hw : ∀ i (hi : i < (pieces dfs ub n l u).length), ((pieces dfs ub n l u)[i]).width = min n (ub.length - i) := by
+    intro i hi
+    rw [pieces_getElem dfs ub n l u h.len i hi (by omega) (by omega), framesOf_getElem_cols dfs n hn i (by omega)]
+    simp only [List.length_take, List.length_drop]; omega
+  apply foldl_max_width _ _ _ 0 (by omega)
+  · right
+    exact ⟨(pieces dfs ub n l u)[0]'(by omega), List.getElem_mem _, by rw [hw 0 (by omega)]; omega⟩
+  · intro f hf
+    obtain ⟨i, hi, rfl⟩ := List.mem_iff_getElem.mp hf
+    rw [hw i hi]; omega
+
+/-- what `df_unslice` returns for bound `k` of a frame stitched from NaN-free series: the values of series `k` on the
+    intervals `i` with `i ≤ k < i + width` (those in which series `k` was a column) -/
+theorem unslice_series (dfs : List TS) (ub : List Int) (h : Stitchable dfs ub) (hstrict : ub.Pairwise (· < ·))
+    (hs : ∀ s ∈ dfs, s.Sorted) (n : Nat) (hn : 1 < n) (F : Frame)
+    (hF : stitch dfs Option.none (some ub) (some ['(', ']']) n = .ok (some F))
+    (k : Nat) (hk : k < ub.length) (t x : Int) :
+    (t, some x) ∈ nona (((rsOf F ub).filter (·.1 == ub[k])).flatMap (·.2)) ↔
+      (t, some x) ∈ dfs[k]'(by rw [h.len]; exact hk) ∧
+        ∃ i, ∃ hi : i < ub.length, i ≤ k ∧ k < i + F.width ∧ inWindow false true (loBound ub i) (.date ub[i]) t = true := by
+  have hne : ub ≠ [] := by intro h0; have := h.two; simp [h0] at this
+  have hpl := pieces_length dfs ub n false true h.len hne
+  have hfl := framesOf_length dfs n
+  have hlen := h.len
+  have hW := stitch_width dfs ub h _ n hn false true rfl F hF
+  have hkd : k < dfs.length := by omega
+  -- the rows of slice `i`
+  have hslice : ∀ i (hi : i < ub.length) (vs : List (Option Int)),
+      (t, vs) ∈ (F.rows.filter fun r => inWindow false true (loBound ub i) (.date ub[i]) r.1) ↔
+        (∃ s ∈ (dfs.drop i).take n, t ∈ s.index) ∧ inWindow false true (loBound ub i) (.date ub[i]) t = true ∧
+          vs = padRow F.width (((dfs.drop i).take n).map (·.get t)) := by
+    intro i hi vs
+    rw [slices_eq dfs ub h n F hF i hi, pieces_getElem dfs ub n false true h.len i (by omega) hi (by omega),
+      framesOf_getElem_cols dfs n hn i (by omega)]
+    simp only [List.mem_map, List.mem_filter, Prod.mk.injEq]
+    constructor
+    · rintro ⟨r, ⟨hr, hw⟩, rfl, rfl⟩
+      obtain ⟨hex, hval⟩ := mem_concatCols.mp hr
+      exact ⟨hex, hw, by rw [hval]⟩
+    · rintro ⟨hex, hw, rfl⟩
+      exact ⟨(t, ((dfs.drop i).take n).map (·.get t)), ⟨mem_concatCols.mpr ⟨hex, rfl⟩, hw⟩, rfl, rfl⟩
+  simp only [nona, List.mem_filter, List.mem_flatMap, Option.isSome_some, and_true, beq_iff_eq, Prod.exists]
+  constructor
+  · rintro ⟨u, c, ⟨hmem, hu⟩, hc⟩
+    obtain ⟨i, j, hi, hj, huj, rfl⟩ := mem_rsOf.mp hmem
+    have hij : i + j < ub.length := (List.getElem?_eq_some_iff.mp huj).1
+    have hijk : i + j = k := by
+      apply getElem_inj_of_sorted hstrict hij hk
+      have := (List.getElem?_eq_some_iff.mp huj).2
+      rw [this]; exact hu
+    obtain ⟨vs, hvs, hval⟩ := mem_column.mp hc
+    obtain ⟨_, hw, rfl⟩ := (hslice i hi vs).mp hvs
+    rw [stitch_column dfs i j n F.width t (by omega) (by omega)] at hval
+    simp only [Option.join_some] at hval
+    have hg : (dfs[k]'hkd).get t = some x := by
+      have e : dfs[i + j]'(by omega) = dfs[k]'hkd := by congr 1
+      rw [← e]; exact hval
+    exact ⟨(get_eq_some_iff (hs _ (List.getElem_mem _)) t x).mp hg, i, hi, by omega, by omega, hw⟩
+  · rintro ⟨hx, i, hi, hik, hkw, hw⟩
+    have hj : k - i < F.width := by omega
+    have hjn : k - i < n := by omega
+    have hidx : i + (k - i) = k := by omega
+    refine ⟨ub[k], column (k - i) (F.rows.filter fun r => inWindow false true (loBound ub i) (.date ub[i]) r.1),
+      ⟨mem_rsOf.mpr ⟨i, k - i, hi, hj, by rw [hidx]; exact List.getElem?_eq_getElem hk, rfl⟩, rfl⟩, ?_⟩
+    apply mem_column.mpr
+    refine ⟨padRow F.width (((dfs.drop i).take n).map (·.get t)), (hslice i hi _).mpr ⟨?_, hw, rfl⟩, ?_⟩
+    · refine ⟨dfs[k]'hkd, mem_take_drop.mpr ⟨k - i, hjn, by rw [hidx]; exact List.getElem?_eq_getElem hkd⟩, ?_⟩
+      simp only [TS.index, List.mem_map]; exact ⟨_, hx, rfl⟩
+    · rw [stitch_column dfs i (k - i) n F.width t hjn (by omega)]
+      simp only [Option.join_some]
+      have e : dfs[i + (k - i)]'(by omega) = dfs[k]'hkd := by congr 1
+      rw [e]
+      exact (get_eq_some_iff (hs _ (List.getElem_mem _)) t x).mpr hx
 
 /-! evaluation tests of the full round trip on the model (`List.mergeSort` does not reduce in the kernel) -/
 
